@@ -1730,11 +1730,11 @@ class VM:
 
         def toString_fn(*args):
             # Join elements with comma
-            return ",".join(str(arr.get_index(i)) for i in range(arr.length))
+            return ",".join(to_string(arr.get_index(i)) for i in range(arr.length))
 
         def join_fn(*args):
             separator = to_string(args[0]) if args and args[0] is not UNDEFINED else ","
-            return separator.join(str(arr.get_index(i)) for i in range(arr.length))
+            return separator.join(to_string(arr.get_index(i)) for i in range(arr.length))
 
         def subarray_fn(*args):
             def relative(value):
